@@ -475,6 +475,12 @@ func sizeClass(n int) string {
 	return ">=1M"
 }
 
+// symValue: a job variable value with characters that HTML / URL / JSON encoders treat specially (no single quote: the
+// script puts the value between single quotes)
+func symValue(i int) string {
+	return []string{`a&b<c>d"e+f`, `<script>alert("x")</script>`, `1+1=2 & 3>2`, `50% "off" \\ back`, "tab\there & there"}[i%5] + fmt.Sprintf("#%d", i)
+}
+
 func nameClass(n string) string {
 	switch {
 	case len(n) > 200:
@@ -593,7 +599,7 @@ func RunEnvCase(seed int64, exe, workDir string) *HistResult {
 			nCmd := 1 + r.Intn(3)
 			var script []string
 			for c := 0; c < nCmd; c++ {
-				script = append(script, shQuote(exe)+" dumpenv {{.tv}} cmd"+fmt.Sprint(c)+" {{.num}} {{.big}} {{.small}} {{.flag}} {{.PXV_A}} {{.PXV_TASKONLY}}")
+				script = append(script, shQuote(exe)+" dumpenv {{.tv}} cmd"+fmt.Sprint(c)+" {{.num}} {{.big}} {{.small}} {{.flag}} {{.PXV_A}} {{.PXV_TASKONLY}} '{{.sym}}'")
 			}
 			// the interpreter's own view of a variable
 			script = append(script, `printf 'SH[%s]' "$PXV_A"`)
@@ -632,6 +638,8 @@ func RunEnvCase(seed int64, exe, workDir string) *HistResult {
 		vars := map[string]interface{}{"tv": tv, "num": 1000000 + i, "big": int64(9007199254740993), "small": int8(7), "flag": true}
 		// job variables whose names are also environment variable names (pipeline level / task level): the script is
 		// rendered with the job's variables, the environment keeps the environment's values
+		// characters that mean something in HTML, URLs and JSON (the script quotes the value for the shell): byte for byte
+		vars["sym"] = symValue(i)
 		vars["PXV_A"] = fmt.Sprintf("jobvar-a-%d", i)
 		vars["PXV_TASKONLY"] = fmt.Sprintf("jobvar-t-%d", i)
 		opt := ""
@@ -674,7 +682,7 @@ func RunEnvCase(seed int64, exe, workDir string) *HistResult {
 	}
 	// a job that passes the reserved variable name, naming the first job: it must not run anything nor touch that job
 	victim := jobs[0]
-	evilID, evilCls := sys.Schedule(0, victim.pipe, map[string]interface{}{"tv": "evil", "opt": "evil", "num": 1, "big": 2, "small": 3, "flag": false, "PXV_A": "evil", "PXV_TASKONLY": "evil", "__jobID": victim.id}, "evil")
+	evilID, evilCls := sys.Schedule(0, victim.pipe, map[string]interface{}{"tv": "evil", "opt": "evil", "num": 1, "big": 2, "small": 3, "flag": false, "sym": "evil", "PXV_A": "evil", "PXV_TASKONLY": "evil", "__jobID": victim.id}, "evil")
 	var ids []string
 	for _, j := range jobs {
 		ids = append(ids, j.id)
@@ -745,6 +753,9 @@ func RunEnvCase(seed int64, exe, workDir string) *HistResult {
 				}
 				if want := []string{fmt.Sprintf("jobvar-a-%d", j.idx), fmt.Sprintf("jobvar-t-%d", j.idx)}; len(d.Args) < 8 || !eqStr(d.Args[6:8], want) {
 					find([]string{"C18"}, "C18:job-variable-shadowed-by-environment-name", "job %s task %s command %d: job variables that share their names with environment variables (pipeline level / task level) were rendered as %v, expected the job's own values %v", j.tv, te.name, ci, d.Args[min(6, len(d.Args)):], want)
+				}
+				if len(d.Args) < 9 || d.Args[8] != symValue(j.idx) {
+					find([]string{"C18"}, "C18:script-rendered-with-altered-variable-values", "job %s task %s command %d: the job variable %q was rendered as %q", j.tv, te.name, ci, symValue(j.idx), d.Args[min(8, len(d.Args)-1)])
 				}
 				if len(d.Args) < 2 || d.Args[0] != j.tv {
 					find([]string{"C18"}, "C18:script-rendered-with-wrong-variables", "job %s task %s command %d was rendered with arguments %v", j.tv, te.name, ci, d.Args)
